@@ -6,6 +6,7 @@ A page is built from an abstract description; `render` gives the text and
 links, properties) computed from the description alone."""
 import datetime as dt
 import random
+import re
 
 KINDS = ["-", "o", "x", "~", "<", ">"]
 DEFAULT_PRIORITY = "P3"
@@ -40,6 +41,7 @@ def short(d):
     return d.strftime("%Y%m%d")[2:]
 
 
+BULLET_SHARED_KEY_RATE = 0.0    # bullet properties whose key an outer scope may set too (set by C02)
 SAME_DAY_MOD_RATE = 0.0     # modify date = creation date (set by C01 / C02 / C12; an index-side known finding of C11)
 SHARED_NAME_RATE = 0.25
 ZCH = "0123456789ABCDEFGHJKLMNPRTUVWXYZabcdefhkmnorstuvwxz"
@@ -86,9 +88,13 @@ def deco_words(rng, uid, meta, allow_props=True, n=None, date_values=True):
         elif allow_props and r < 0.93:
             k = rng.choice(["k", "due", "key_%d" % (uid[0] % 3), "shared"])
             v = rng.choice(["v%d" % uid[0], "2024-05-01", "7", "val"] if date_values else ["v%d" % uid[0], "7", "val"])
+            if k in getattr(meta, "reserved", ()):
+                k = "key_%d" % (uid[0] % 3)        # the note sets this key in a bullet: which of the two wins is not the property's business
             ws.append("%s::%s" % (k, v)); meta.props[k] = v
         elif allow_props:
             k = rng.choice(["ik", "shared", "note"])
+            if k in getattr(meta, "reserved", ()):
+                k = "ik"
             v = ["w%d" % uid[0]] + (["more"] if rng.random() < 0.5 else [])
             ws.append("[%s:: %s]" % (k, " ".join(v))); meta.props[k] = " ".join(v)
     return ws
@@ -142,8 +148,16 @@ def gen_item(rng, uid):
     for _ in range(rng.choice([0, 0, 0, 1, 2, 3])):
         r = rng.random()
         if r < 0.25:
-            k = "bp%d" % uid[0]; uid[0] += 1
+            # sometimes a key that the page head or an enclosing header may set too: the note's own value wins
+            k = rng.choice(["k", "shared", "note", "due"]) if rng.random() < BULLET_SHARED_KEY_RATE else "bp%d" % uid[0]
+            if k in own.props and not k.startswith("bp"):
+                k = "bp%d" % uid[0]                  # the note already sets it in its text
+            if not hasattr(own, "reserved"):
+                own.reserved = set()
+            own.reserved.add(k)
+            uid[0] += 1
             v = " ".join(rng.choice(PLAIN[:8]) for _ in range(rng.randint(1, 3)))
+            cont = [c for c in cont if not c.startswith("  * %s:: " % k)]       # one bullet per key
             cont.append("  * %s:: %s" % (k, v)); own.props[k] = v
         elif r < 0.6:
             cont.append("  * " + " ".join([rng.choice(PLAIN)] + body_words(rng, uid, own)))
@@ -151,7 +165,7 @@ def gen_item(rng, uid):
             cont.append("    - " + " ".join([rng.choice(PLAIN)] + body_words(rng, uid, own)))
         else:
             cont.append("  " + " ".join([rng.choice(PLAIN)] + body_words(rng, uid, own)))
-    isprop = lambda c: c.startswith("  * bp")
+    isprop = lambda c: re.match(r"  \* \w+:: ", c) is not None
     cont = [c for c in cont if not isprop(c)] + [c for c in cont if isprop(c)]   # property bullets last
     return {"kind": kind, "prio": prio, "first": first, "words": words, "cont": cont, "own": own,
             "zid": zid, "mod": mod, "cdate": cdate}
